@@ -23,6 +23,9 @@ MAY_PANIC = [
 GENERATED_BY = {"bitflags", "__impl_bitflags", "__impl_internal_bitflags", "__impl_public_bitflags",
                 "__impl_public_bitflags_forward", "Serialize", "Deserialize", "Debug", "Clone", "PartialEq",
                 "Default", "Hash", "Eq", "PartialOrd", "Ord", "Message", "Enumeration", "Oneof", "Error"}
+# third-party macros whose expansion contains its own unreachable!/unwrap on
+# internal invariants (not on user values)
+MACRO_INTERNAL = {"select", "join", "try_join", "json", "pin_mut", "pin", "ready", "matches", "async_stream", "stream", "try_stream"}
 ASSERT_KINDS = {"BoundsCheck", "DivisionByZero", "RemainderByZero", "Overflow", "OverflowNeg"}
 
 
@@ -64,6 +67,8 @@ def panic_sites(body, live):
                 out.append((i, "assert", d))
         elif t["k"] == "call":
             if idioms.is_logging(t):
+                continue
+            if t.get("exp") and (t.get("macro") or "").rsplit("::", 1)[-1] in MACRO_INTERNAL:
                 continue
             c = t.get("resolved") or t.get("callee") or ""
             c2 = t.get("callee") or ""
@@ -345,11 +350,11 @@ def r5_handlers_answer_errors(ctx):
     ws = ctx.ws
     r = ctx.rule("C15-R5", "server request handlers turn errors into responses and do not unwrap request-derived values",
                  floor=15, kind="K2 + K9 local")
-    hs = ws.find_fns(r"^sos_server::handlers::(account|files)::\w+$")
+    hs = ws.find_fns(r"^sos_server::handlers::(account|files|websocket|relay)::(handlers::)?\w+$") + ws.find_fns(r"^sos_server::handlers::\w+$") + ws.find_fns(r"^sos_server::handlers::(websocket::WebSocketAccount|Caller)::\w+$")
     for f in hs:
         body = cfg.code_body(ws, f)
         live = cfg.live_blocks(body)
-        sites = [s for s in panic_sites(body, live) if s[1] in ("panic", "unwrap")]
+        sites = [s for s in panic_sites(body, live) if s[1] in ("panic", "unwrap", "may-panic")]
         k = f.root + "|no-panic-in-handler"
         if sites:
             for (i, kind, detail) in sites:
